@@ -487,6 +487,16 @@ func (s *Sched) schedule(me *Task) {
 		timerAlt := !s.opts.StrictTime && len(alts) > 0 && s.nextTimer() != nil
 		if len(alts) == 0 {
 			if s.fireNextTimer() {
+				// everything that is due at this very instant fires together: tasks woken by different
+				// timers of one instant are then enabled side by side (as they are in real time), instead of
+				// the second one waiting for the first to run to quiescence
+				for {
+					tm := s.nextTimer()
+					if tm == nil || tm.when > s.now {
+						break
+					}
+					s.fireNextTimer()
+				}
 				continue
 			}
 			// nothing enabled and no timer pending: deadlock (or quiescent end with main blocked)
